@@ -82,8 +82,9 @@ def build(case):
     raise ValueError(fmt)
 
 
-def piped(fmt, data, args, use_stdin, use_stdout):
-    """Real subprocess: the decoder reading stdin and/or writing stdout."""
+def piped(fmt, data, args, use_stdin, use_stdout, dash=False):
+    """Real subprocess: the decoder reading stdin and/or writing stdout - by leaving the file names out, or (dash) by
+    naming '-' for them, which is the only way to combine a piped input with a named output file."""
     d = D.workdir()
     src = os.path.join(d, "pin.%s" % D.EXT[fmt][0])
     dst = os.path.join(d, "pout.%s" % D.EXT[fmt][1])
@@ -91,7 +92,9 @@ def piped(fmt, data, args, use_stdin, use_stdout):
         f.write(data)
     argv = [sys.executable, "-c", "import sys;from vlib import boot;boot.assert_repo();import importlib;"
             "importlib.import_module(%r).start(sys.argv[1:])" % D.MODULES[fmt]] + list(args)
-    if not use_stdin:
+    if dash:
+        argv += ["-" if use_stdin else src, "-" if use_stdout else dst]
+    elif not use_stdin:
         argv.append(src)
         if not use_stdout:
             argv.append(dst)
@@ -177,16 +180,21 @@ def run_case(case):
         if res2["out"] != res["out"]:
             obs["viols"].append({"sig": "C18/%s/skip-not-equal-to-prefix-removal" % fmt, "detail": detail})
     if case.get("pipes"):
-        for use_in, use_out in ((True, True), (False, True)):
+        for use_in, use_out, dash in ((True, True, False), (False, True, False), (True, False, True), (False, True, True), (True, True, True)):
             if fmt == "pix" and use_in:
                 continue
-            r = piped(fmt, data, args, use_in, use_out)
+            r = piped(fmt, data, args, use_in, use_out, dash)
             if r is None:
                 continue
+            for stray in ("-",):
+                sp = os.path.join(run.HOME, stray)
+                if os.path.exists(sp):
+                    os.remove(sp)
+                    obs["viols"].append({"sig": "C18/%s/stray-file-named-dash" % fmt, "detail": dict(detail, stdin=use_in, stdout=use_out)})
             obs["counters"]["pipe_runs"] = obs["counters"].get("pipe_runs", 0) + 1
             if r["rc"] != 0 or r["out"] != res["out"]:
                 obs["viols"].append({"sig": "C18/%s/pipes-differ-from-files" % fmt,
-                                     "detail": dict(detail, stdin=use_in, stdout=use_out, rc=r["rc"],
+                                     "detail": dict(detail, stdin=use_in, stdout=use_out, dash=dash, rc=r["rc"],
                                                     out_len=len(r["out"] or b""), file_len=len(res["out"] or b""))})
     if case.get("sample"):
         obs["sample"] = {"format": fmt, "args": args, "input_bytes": len(data), "announced_size": list(cl["size"])}
